@@ -10,7 +10,7 @@ SPEC = {
             {"args": ["-mode", "conc"], "corpus": "conc"},
         ],
     },
-    "skip_model_prefix": ["conc"],
+    "skip_model_prefix": ["conc", "hammer"],
     "rule": ("case = one history of storage calls executed on the real backend: (mem) sequential histories on memory.Storage with "
              "real sleeps (ttl in {0, 40 ms, 1 h, negative, 25 h}, sleep 60 ms): exhaustive matrix setup x (sleep|no sleep) x every call "
              "kind x probes, plus random histories over <= 3 keys; (red) the same call grammar on redis.Storage over miniredis "
